@@ -161,24 +161,24 @@ func (u *Unit) storePtr(p *Ptr, st *state, v string) {
 		k := u.keyCell(p.typ)
 		h := st.get(u, k)
 		nv := u.update("(select "+h+" "+p.ref+")", p.typ, p.path, v)
-		st.set(k, fmt.Sprintf("(store %s %s %s)", h, p.ref, nv))
+		st.setAt(k, fmt.Sprintf("(store %s %s %s)", h, p.ref, nv), p.ref)
 	case pSliceElem:
 		k := u.keyM(p.typ)
 		h := st.get(u, k)
 		nv := u.update(fmt.Sprintf("(select (select %s %s) %s)", h, p.ref, p.idx), p.typ, p.path, v)
-		st.set(k, fmt.Sprintf("(store %s %s (store (select %s %s) %s %s))", h, p.ref, h, p.ref, p.idx, nv))
+		st.setAt(k, fmt.Sprintf("(store %s %s (store (select %s %s) %s %s))", h, p.ref, h, p.ref, p.idx, nv), p.ref)
 	case pArray:
 		k := u.keyM(p.typ)
 		h := st.get(u, k)
 		nv := u.update(fmt.Sprintf("(select %s %s)", h, p.ref), types.NewArray(p.typ, p.n), p.path, v)
-		st.set(k, fmt.Sprintf("(store %s %s %s)", h, p.ref, nv))
+		st.setAt(k, fmt.Sprintf("(store %s %s %s)", h, p.ref, nv), p.ref)
 	case pHeapStruct:
 		stt := p.typ.Underlying().(*types.Struct)
 		if len(p.path) == 0 {
 			u.sortOf(p.typ)
 			for i := 0; i < stt.NumFields(); i++ {
 				k := u.keyField(p.typ, i)
-				st.set(k, fmt.Sprintf("(store %s %s (%s %s))", st.get(u, k), p.ref, u.fieldSel(p.typ, i), v))
+				st.setAt(k, fmt.Sprintf("(store %s %s (%s %s))", st.get(u, k), p.ref, u.fieldSel(p.typ, i), v), p.ref)
 			}
 			return
 		}
@@ -186,7 +186,7 @@ func (u *Unit) storePtr(p *Ptr, st *state, v string) {
 		k := u.keyField(p.typ, f)
 		h := st.get(u, k)
 		nv := u.update(fmt.Sprintf("(select %s %s)", h, p.ref), stt.Field(f).Type(), p.path[1:], v)
-		st.set(k, fmt.Sprintf("(store %s %s %s)", h, p.ref, nv))
+		st.setAt(k, fmt.Sprintf("(store %s %s %s)", h, p.ref, nv), p.ref)
 	default:
 		panic("bad ptr kind")
 	}
